@@ -575,8 +575,10 @@ def main(tier, replay=None):
         "harness/c10_rational.C, checks/C10.py (case generator, python fractions.Fraction oracle); decoding of double bits into (sign, exponent, mantissa) is done by the check",
         "g++ 12 / x86-64 / IEEE-754 binary64 for the implementation side",
     ]
-    chk.assumptions = ["operands of arithmetic in Reduce mode are canonical (den > 0, gcd = 1, 0 = 0/1): the theorems' hypothesis; generated that way",
-                       "pow with a negative exponent and division exclude a zero base / divisor value only through the documented exception"]
+    chk.assumptions = ["operands of arithmetic in Reduce mode are canonical (den > 0, gcd = 1, 0 = 0/1): the theorems' hypothesis; generated that way (every public constructor is proved to establish it)",
+                       "NoReduce mode: operands have a positive denominator (any common factor); results are judged on value and sign of the denominator only",
+                       "division by a zero value is the documented exception (None in the model, THROW in the harness); pow with a negative exponent excludes a zero base; pow exponents are small (the value grows as |x|^y)",
+                       "comparison theorems need den > 0 and zero stored as 0/1 (weaker than canonical)"]
     # 1. proofs
     res = vf.coq_check_props(AREA)
     chk.proof_result(res, AREA)
@@ -606,7 +608,7 @@ def main(tier, replay=None):
                 cases[-1].update(kind="throw", exp=None)
     dist = {}
     ncorr = nored = 0
-    rounds = 1 if (replay or tier == "quick") else 4     # thorough: four batches (memory), the sweep in the first
+    rounds = 1 if (replay or tier == "quick") else 8     # thorough: eight batches (memory), the sweep in the first
     for rd in range(rounds):
         if not replay:
             cases = (directed_cases() if rd == 0 else []) + build_cases(rng, tier, cov, sweep=(rd == 0))
